@@ -13,7 +13,7 @@
 EXTENDS Conform
 
 CONSTANTS DS, DE, TL, RM, OFF, NOW, TARGETS, OPS, GEN,
-          L, DMax, E, Kinds, Unit, Base, FreeInd, FreeCode, FreeTags, WsLens, Blank, Suffix, TagSep, FlagVal, EqPad, ExtraAttr, TagPad, WideCode, EdgeCh, Lead, QuoteCh, FlagsFirst, EOL, Preamble, InlineTags, Crossing, TailKinds, TailElems, PairKind, PairLines, MaxCode,
+          L, DMax, E, Kinds, Unit, Base, FreeInd, FreeCode, FreeTags, WsLens, Blank, Suffix, TagSep, FlagVal, EqPad, ExtraAttr, TagPad, OpenPad, WideCode, EdgeCh, Lead, QuoteCh, FlagsFirst, EOL, Preamble, InlineTags, Crossing, TailKinds, TailElems, PairKind, PairLines, MaxCode,
           EmptyDefault, MbCode, CodeA, CodeB, PastTo, FutureTo, Tos, Names
 
 VARIABLES lines, stack, nel
